@@ -15,11 +15,24 @@ class Rule:
         self.instances = []   # (instance, ok, where, detail)
         self.extra = {}
 
+    def _find(self, instance):
+        for k, i in enumerate(self.instances):
+            if i[0] == instance:
+                return k
+        return None
+
     def ok(self, instance, where='', detail=''):
-        self.instances.append((instance, True, where, detail))
+        if self._find(instance) is None:
+            self.instances.append((instance, True, where, detail))
 
     def bad(self, instance, where, detail, path=None):
-        self.instances.append((instance, False, where, detail))
+        k = self._find(instance)
+        if k is not None:
+            if not self.instances[k][1]:
+                return          # already reported
+            self.instances[k] = (instance, False, where, detail)
+        else:
+            self.instances.append((instance, False, where, detail))
         self.report.violations.append({'rule': self.name, 'form': self.form, 'instance': instance,
                                        'where': where, 'detail': detail, 'path': path or [],
                                        'key': '%s:%s' % (self.name, instance)})
